@@ -17,7 +17,7 @@ def gen_case(seed):
     src = SeedSource(seed)
     sem = src.pick(SEMS)
     s, p = sem
-    plates = src.pick([False, False, True])
+    plates = src.pick([False, True])
     # binary uses of the semiring *sum* are generated rarely: they hit the open known finding
     # "adjoint-sum-branch-multiplicity" and are excluded by construction (counted)
     opts = Opts(semiring=sem, ops_binary=(p,), ops_reduce=(s, s, s, p) if plates else (s,), max_depth=src.pick([2, 3, 3]), max_names=4, red_absent=False)
@@ -206,7 +206,7 @@ class C11(Prop):
         "equal leaf nodes are one Tensor; a leaf occurring k times makes the root a degree-k polynomial in its entries, whose derivative is taken with the 5-point stencil (as for product reductions)",
         "an expression the adjoint tape rejects (NotImplementedError / ValueError) is a decline",
     )
-    cases = {"quick": 2400, "thorough": 40000}
+    cases = {"quick": 3200, "thorough": 40000}
 
     def strategy(self, tier):
         return st.one_of(st.integers(0, 2**40).map(robust_gen(gen_case)), st.integers(0, 2**40).map(robust_gen(gen_case2)), st.integers(0, 2**40).map(robust_gen(gen_case2)))
